@@ -18,7 +18,7 @@ func init() {
 		Assumptions: []string{
 			"receivers: H264Packet Annex-B and AVC, H265Packet with and without DONL, VP8Packet, VP9Packet, AV1Depacketizer, AV1Packet (fresh per payload and reused) + one frame.AV1 assembler, OpusPacket",
 			"short strings: nil, empty, all strings of 1-2 bytes, all 3-byte strings (thorough) / 3-byte strings over a 40-symbol alphabet (quick)",
-			"histories: all sequences over a corpus of about 40 payloads per codec from the reference encoders (every descriptor option, fragment start/middle/end, aggregation, PACI, truncated and malformed ones)",
+			"histories: all sequences of 6 payloads over a 7-payload spread of the corpus, and all sequences over a corpus of about 40 payloads per codec from the reference encoders (every descriptor option, fragment start/middle/end, aggregation, PACI, truncated and malformed ones)",
 			"per-packet formats (VP8, VP9, H265, Opus): return values always, and every exported field / accessor on success, are compared with a fresh receiver given the same payload; nil vs empty slices are not distinguished. Stateful formats (H264Packet, AV1Depacketizer): an instance whose input buffers are overwritten after every call must give the same outputs as a twin fed pristine copies",
 		},
 		Scenarios: []mc.Scenario{
@@ -351,9 +351,14 @@ func c09Histories(c *mc.Ctx) {
 	if c.Thorough() {
 		maxDepth = 4
 	}
-	depth := 1 + c.Pick(maxDepth)
+	depth := 1 + c.Pick(maxDepth+1)
 	if depth == 4 && len(corpus) > 32 {
 		corpus = c08SubCorpusOf(corpus, 32)
+	}
+	if depth == maxDepth+1 {
+		// long histories over a spread of the corpus
+		depth = 6
+		corpus = c08SubCorpusOf(corpus, 7)
 	}
 	idx := make([]int, depth)
 	for i := range idx {
